@@ -10,6 +10,8 @@ import TonVerif.Proofs.Hashmap
 import TonVerif.Proofs.SrcArith2
 import TonVerif.Generated.DictKey
 import TonVerif.Proofs.SrcHashmap
+import TonVerif.Proofs.SrcHashmapSer
+import TonVerif.Proofs.SrcHashmapGlue
 
 namespace TonVerif.Properties.C09
 open TonVerif TonVerif.Model TonVerif.Model.Hashmap TonVerif.Spec.Hashmap TonVerif.Proofs.Hashmap
@@ -244,5 +246,152 @@ example : (parse_hashmap 4 (Py.beginParse (.mk (-1) [false, false] [.mk (-1) [fa
     = some [([false], ⟨-1, [true], []⟩), ([true], ⟨-1, [false], []⟩)] := by rfl
 
 end SrcParser
+
+/-! ### the round trip through the serialiser AND the parser regenerated from utils.py / parse.py -/
+section SrcFull
+open TonVerif.Generated.HashmapSrc TonVerif.Proofs.SrcHashmap TonVerif.Proofs.SrcHashmapSer
+
+/-- the serialiser the round trip rests on is the regenerated one: `serialize_dict(map, n, serializer).end_cell()` from utils.py is
+what the hand model's `serialize()` returns for every non-empty map reached by accepted `set_int_key` calls -/
+theorem c09_src_serialize_is_model {V : Type} (n : Nat) (hn : 0 < n) (ser : V → Option Val) (ins : List (Int × V)) (d : Dict V)
+    (hset : setAll n ins [] = some d) (hne : d ≠ []) (fuel : Nat) (hf : 2 * n + 2 ≤ fuel) :
+    (serialize_dict (serCb ser) fuel d n).map (fun b => some b.endCell) = serialize n ser d :=
+  serialize_dict_eq n hn ser d (c09_dict_ok n ins d hset) hne fuel hf
+
+/-- FULL ROUND TRIP FROM THE SOURCE.  For every key width n ≥ 1, every value serialiser and EVERY sequence `ins` of accepted
+`set_int_key(k, v)` calls on a fresh HashMap (any order, keys may repeat): if `serialize_dict(map, n, serializer)` AS REGENERATED FROM
+utils.py returns a builder `b`, then `parse_hashmap(b.end_cell().begin_parse(), n)` AS REGENERATED FROM parse.py returns a list `kv` of
+(key string, ordinary slice behind the leaf label) whose int-keyed form `r` has strictly ascending keys and contains `(k ↦ val)` iff the
+LAST value written for `k` serialises to `val` — the regenerated serialiser followed by the regenerated parser is the identity on
+every finite map of every key width (fuels: any ≥ 2n + 2 on both sides; Python has none). -/
+theorem c09_src_roundtrip_full {V : Type} (n : Nat) (hn : 0 < n) (ser : V → Option Val) (ins : List (Int × V)) (d : Dict V) (b : Py.Bld)
+    (hset : setAll n ins [] = some d) (fuel : Nat) (hf : 2 * n + 2 ≤ fuel)
+    (hser : serialize_dict (serCb ser) fuel d n = some b) (fuel' : Nat) (hf' : 2 * n + 2 ≤ fuel') :
+    ∃ (kv : List (Bits × Val)) (r : Dict Val),
+      (parse_hashmap fuel' (Py.beginParse b.endCell) (n : Int)).map (·.1) = some (kv.map fun p => (p.1, valSlice p.2)) ∧
+      intKeys kv = r ∧
+      r.Pairwise (fun a b => a.1 < b.1) ∧
+      ∀ k val, (k, val) ∈ r ↔ ∃ v, lastWrite ins k = some v ∧ ser v = some val := by
+  have hne : d ≠ [] := by rintro rfl; rw [serialize_dict_nil] at hser; simp at hser
+  have hm := c09_src_serialize_is_model n hn ser ins d hset hne fuel hf
+  rw [hser] at hm
+  obtain ⟨kv, r, h1, h2, _, h4, h5⟩ := c09_src_roundtrip n hn ser ins d b.endCell hset hm.symm fuel' hf'
+  exact ⟨kv, r, h1, h2, h4, h5⟩
+
+/-- non-vacuity: the map written as 2 ↦ T, 1 ↦ F, 2 ↦ F (see `exIns` above) is accepted, and the regenerated serialiser returns a builder for it -/
+example : ∃ b, serialize_dict (serCb exSer) 6 [(2, false), (1, false)] 2 = some b := by
+  have hd : DictOK 2 [(2, false), (1, false)] := ⟨by decide, by decide⟩
+  have := serialize_dict_eq 2 (by decide) exSer [(2, false), (1, false)] hd (by simp) 6 (by decide)
+  cases h : serialize_dict (serCb exSer) 6 [(2, false), (1, false)] 2 with
+  | some b => exact ⟨b, rfl⟩
+  | none =>
+    rw [h] at this
+    have : serialize 2 exSer [(2, false), (1, false)] = none := this.symm
+    have hex : ∃ c, serialize 2 exSer [(2, false), (1, false)] = some (some c) := by
+      simp [serialize, buildTree, buildEdge, keyBits, binDigits, bitLength, natToBits, findCommonPrefix, lexMin, lexMax, lexLe,
+        commonPrefix, forkMap, writeEdge, labelBits, detect_label_type, label_short_length, label_long_length, label_same_length,
+        is_same, exSer]
+    obtain ⟨c, hc⟩ := hex
+    rw [hc] at this; simp at this
+
+end SrcFull
+
+/-! ### the HashMap / Slice methods around the serialiser and the parser, REGENERATED from hashmap.py and slice.py
+(Generated/HashmapGlue.lean, translator hashmapglue.py = specialiser + pyrec.py; proofs in Proofs/SrcHashmapGlue.lean) -/
+section SrcGlue
+open TonVerif.Generated TonVerif.Generated.HashmapSrc TonVerif.Proofs.SrcHashmap TonVerif.Proofs.SrcHashmapSer TonVerif.Proofs.SrcHashmapGlue
+
+/-- `HashMap.set_int_key(int_key, value)` as regenerated from hashmap.py IS the hand model's `setIntKey`, for every map, width, int key:
+it raises exactly for `int_key < 0 or int_key.bit_length() > size` and otherwise performs `self.map[int_key] = value`. -/
+theorem c09_src_set_int_key {V : Type} (d : Dict V) (size : Nat) (k : Int) (v : V) :
+    HashmapGlue.set_int_key d size k v = setIntKey size k v d := set_int_key_eq d size k v
+
+/-- KEY NORMALISATION FROM THE SOURCE.  `HashMap.set(key, value[, hash_key])` as regenerated from hashmap.py, specialised to each key
+form the method dispatches on — int; bytes (`int.from_bytes(key, 'big', signed=False)`); '0'/'1' string (`int(key, 2)`, ValueError on
+''); Address (`Builder().store_address(key).end_cell().begin_parse().load_uint(267)`); text with `hash_key=True` (sha256 of the text,
+then as bytes) — equals the hand model's `set` = `normKey` followed by `setIntKey`, for every map, width and key. -/
+theorem c09_src_set_forms {V : Type} (H : Bytes → Bytes) (d : Dict V) (size : Nat) (v : V) :
+    (∀ k : Int, HashmapGlue.set_int d size k v = Hashmap.set H size (.int k) v d) ∧
+    (∀ bs : Bytes, HashmapGlue.set_bytes d size bs v = Hashmap.set H size (.bytes bs) v d) ∧
+    (∀ s : Bits, HashmapGlue.set_str d size s v = Hashmap.set H size (.bitstr s) v d) ∧
+    (∀ a : Addr, HashmapGlue.set_addr d size a v = Hashmap.set H size (.addr a) v d) ∧
+    (∀ u : Bytes, HashmapGlue.set_hashed H d size u v = Hashmap.set H size (.hashed u) v d) := set_forms_eq H d size v
+
+/-- … and with a `key_serializer`: the int it returns goes through `set_int_key` (so it is range-checked like any int key) -/
+theorem c09_src_set_key_serializer {V K : Type} (ks : K → Option Int) (d : Dict V) (size : Nat) (key : K) (v : V) :
+    HashmapGlue.set_ks ks d size key v = (ks key).bind fun k => setIntKey size k v d := set_ks_eq ks d size key v
+
+/-- `HashMap.serialize()` as regenerated from hashmap.py (None for the empty map, else `serialize_dict(...).end_cell()` with the
+regenerated `serialize_dict`) IS the hand model's `serialize`, for every map built by `set_int_key` -/
+theorem c09_src_serialize {V : Type} (n : Nat) (hn : 0 < n) (ser : V → Option Val) (d : Dict V) (hd : DictOK n d)
+    (fuel : Nat) (hf : 2 * n + 2 ≤ fuel) :
+    HashmapGlue.serialize (serCb ser) fuel d n = serialize n ser d := serialize_eq n hn ser d hd fuel hf
+
+/-- `HashMap.parse` (default deserialisers), `HashMap.from_cell(...).map`, `Slice.load_dict / preload_dict / load_hashmap` as
+regenerated from hashmap.py / slice.py ARE the hand model's `hashMapParse`, `fromCell`, `loadDict` (`outP` / `outDict` render the
+model's result: raise = none, None = some none, each value the ordinary slice behind the leaf label); `load_dict` consumes the
+presence bit and one reference, `preload_dict` nothing. -/
+theorem c09_src_parse_api (fuel : Nat) (c : Cell) (n : Nat) (hf : 2 * n + 2 ≤ fuel) (sl : Py.Slice) :
+    (HashmapGlue.hm_parse fuel (Py.beginParse c) (n : Int)).map (·.1) = outP (hashMapParse c n) ∧
+    HashmapGlue.from_cell fuel c (n : Int) = (fromCell c n).map outDict ∧
+    (HashmapGlue.load_hashmap fuel (Py.beginParse c) (n : Int)).map (·.1) = outP (hashMapParse c n) ∧
+    (HashmapGlue.load_dict fuel sl (n : Int)).map (·.1) = outP (loadDict sl.bits sl.refs n) ∧
+    (∀ r sl', HashmapGlue.load_dict fuel sl (n : Int) = some (r, sl') →
+      sl'.kind = sl.kind ∧ sl'.bits = sl.bits.tail ∧ sl'.refs = (if sl.bits.head? = some true then sl.refs.tail else sl.refs)) ∧
+    HashmapGlue.preload_dict fuel sl (n : Int) = outP (loadDict sl.bits sl.refs n) :=
+  ⟨hm_parse_outP fuel c n hf, from_cell_eq fuel c n hf, load_hashmap_eq fuel c n hf, (load_dict_eq fuel sl n hf).1,
+    (load_dict_eq fuel sl n hf).2, preload_dict_eq fuel sl n hf⟩
+
+/-- a sequence of `set_int_key` calls through the regenerated method -/
+def setAllSrc {V : Type} (size : Nat) : List (Int × V) → Dict V → Option (Dict V)
+  | [], d => some d
+  | (k, v) :: rest, d => (HashmapGlue.set_int_key d size k v).bind (setAllSrc size rest)
+
+theorem setAllSrc_eq {V : Type} (size : Nat) (ins : List (Int × V)) (d : Dict V) : setAllSrc size ins d = setAll size ins d := by
+  induction ins generalizing d with
+  | nil => rfl
+  | cons x rest ih =>
+    obtain ⟨k, v⟩ := x
+    simp only [setAllSrc, setAll, set_int_key_eq]
+    cases setIntKey size k v d with
+    | none => rfl
+    | some d' => simp [ih]
+
+/-- ROUND TRIP THROUGH THE API, EVERYTHING FROM THE SOURCE.  For every key width n ≥ 1, value serialiser and sequence `ins` of
+`set_int_key` calls, all through the REGENERATED methods: if the calls are accepted and `HashMap.serialize()` returns a cell `c`, then
+`HashMap.parse(c.begin_parse(), n)`, `HashMap.from_cell(c, n).map`, and `store_dict(c)` followed by `load_dict(n)` / `preload_dict(n)`
+all return the dict `outDict r`, where `r` has strictly ascending keys and `(k ↦ val) ∈ r` iff the LAST value written for `k`
+serialises to `val`. -/
+theorem c09_src_roundtrip_api {V : Type} (n : Nat) (hn : 0 < n) (ser : V → Option Val) (ins : List (Int × V)) (d : Dict V) (c : Cell)
+    (fuel : Nat) (hf : 2 * n + 2 ≤ fuel)
+    (hset : setAllSrc n ins [] = some d) (hser : HashmapGlue.serialize (serCb ser) fuel d n = some (some c)) :
+    ∃ r : Dict Val,
+      (HashmapGlue.hm_parse fuel (Py.beginParse c) (n : Int)).map (·.1) = some (some (outDict r)) ∧
+      HashmapGlue.from_cell fuel c (n : Int) = some (outDict r) ∧
+      (HashmapGlue.load_dict fuel (Py.beginParse (storeDictCell (some c))) (n : Int)).map (·.1) = some (some (outDict r)) ∧
+      HashmapGlue.preload_dict fuel (Py.beginParse (storeDictCell (some c))) (n : Int) = some (some (outDict r)) ∧
+      r.Pairwise (fun a b => a.1 < b.1) ∧
+      ∀ k val, (k, val) ∈ r ↔ ∃ v, lastWrite ins k = some v ∧ ser v = some val := by
+  rw [setAllSrc_eq] at hset
+  rw [serialize_eq n hn ser d (c09_dict_ok n ins d hset) fuel hf] at hser
+  obtain ⟨r, h1, h2, h3, h4, h5⟩ := c09_roundtrip n hn ser ins d c hset hser
+  refine ⟨r, ?_, ?_, ?_, ?_, h4, h5⟩
+  · rw [hm_parse_outP fuel c n hf, h1]; rfl
+  · rw [from_cell_eq fuel c n hf, h2]; rfl
+  · have := (load_dict_eq fuel (Py.beginParse (storeDictCell (some c))) n hf).1
+    rw [this]
+    simp only [storeDictCell, Py.beginParse] at h3 ⊢
+    rw [h3]; rfl
+  · rw [preload_dict_eq fuel (Py.beginParse (storeDictCell (some c))) n hf]
+    simp only [storeDictCell, Py.beginParse] at h3 ⊢
+    rw [h3]; rfl
+
+/-! non-vacuity of the key forms: the regenerated `set` on a 8-bit map -/
+example : HashmapGlue.set_bytes ([] : Dict Nat) 8 [5] 7 = some [(5, 7)] ∧ HashmapGlue.set_bytes ([] : Dict Nat) 8 [1, 0] 7 = none ∧
+    HashmapGlue.set_str ([] : Dict Nat) 8 [true, false, true] 7 = some [(5, 7)] ∧ HashmapGlue.set_str ([] : Dict Nat) 8 [] 7 = none ∧
+    HashmapGlue.set_int ([] : Dict Nat) 8 (-1) 7 = none ∧ HashmapGlue.set_int ([(5, 1)] : Dict Nat) 8 5 7 = some [(5, 7)] := by
+  simp [c09_src_set_forms (fun b => b), Hashmap.set, normKey, setIntKey, bitLength, dictSet, natOfBE, natOfBits]
+
+end SrcGlue
 
 end TonVerif.Properties.C09
